@@ -129,10 +129,36 @@ func infra(format string, a ...interface{}) {
 	os.Exit(2)
 }
 
+// modfile: a private copy of the repository's go.mod (with its go.sum next to it). Every go command
+// runs with -modfile pointing at it, so that nothing the harness imports can ever make the go tool
+// rewrite go.mod / go.sum in the repository's working tree.
+var modfile string
+
 func goEnv() []string {
 	env := os.Environ()
-	env = append(env, "GOFLAGS=-mod=mod", "GOPROXY=off", "GOSUMDB=off", "GOTOOLCHAIN=local", "CGO_ENABLED=1")
+	flags := "GOFLAGS=-mod=mod"
+	if modfile != "" {
+		flags += " -modfile=" + modfile
+	}
+	env = append(env, flags, "GOPROXY=off", "GOSUMDB=off", "GOTOOLCHAIN=local", "CGO_ENABLED=1")
 	return env
+}
+
+func privateModfile(work string) {
+	dir := filepath.Join(work, "mod")
+	if err := os.MkdirAll(dir, 0755); err != nil {
+		infra("mkdir: %v", err)
+	}
+	for _, f := range []string{"go.mod", "go.sum"} {
+		b, err := os.ReadFile(filepath.Join(repo, f))
+		if err != nil {
+			infra("cannot read the repository's %s: %v", f, err)
+		}
+		if err := os.WriteFile(filepath.Join(dir, f), b, 0644); err != nil {
+			infra("write: %v", err)
+		}
+	}
+	modfile = filepath.Join(dir, "go.mod")
 }
 
 func main() {
@@ -177,6 +203,7 @@ func main() {
 	defer cleanup()
 	globalCleanup = cleanup
 	os.Setenv("VERIF_SCRATCH", work)
+	privateModfile(work)
 
 	overlay := buildOverlay(work)
 	if *selftest {
